@@ -34,12 +34,12 @@ PRELOAD_C = ['miasm/jitter/Jitgcc.c', 'miasm/jitter/Jitllvm.c']
 def run(ck):
     m = ck.repo.mod(JL)
     jm = m.methods("Jitter")
-    ck.rule("R1", "a breakpoint-registering API adds a disassembly split and invalidates translations covering the address", floor=4)
-    ck.rule("R2", "removal APIs drop the split of an address whose last callback is removed; the table forgets the key", floor=4)
-    ck.rule("R3", "the breakpoint keys are the stop set, passed through to the dispatcher, which tests it after each block", floor=3)
-    ck.rule("R4", "callbacks of the current pc run before the block; non-True results are yielded", floor=3)
+    ck.rule("R1", "a breakpoint-registering API adds a disassembly split and invalidates translations covering the address", floor=2)
+    ck.rule("R2", "removal APIs drop the split of an address whose last callback is removed; the table forgets the key", floor=2)
+    ck.rule("R3", "the breakpoint keys are the stop set, passed through to the dispatcher, which tests it after each block", floor=2)
+    ck.rule("R4", "callbacks of the current pc run before the block; non-True results are yielded", floor=1)
     ck.rule("R6", "the split set the translator updates is the object the disassembler consults: handed over by reference at construction and afterwards only mutated in place", floor=1)
-    ck.rule("R5", "the disassembler ends a non-empty block at a split address with a fall-through constraint", floor=2)
+    ck.rule("R5", "the disassembler ends a non-empty block at a split address with a fall-through constraint", floor=1)
 
     init = jm.get("__init__")
     ck.need(init is not None, "Jitter.__init__ vanished")
